@@ -866,7 +866,7 @@ pub fn generate_c07(rng: &mut Rng) -> Scenario {
         _ => (true, true, false), // io-error worlds are built on a readable program
     };
     let io_error = kind >= 8;
-    let templates: Vec<&'static str> = catalogue::by_class(want_clean, want_warn, want_err).into_iter().filter(|t| *t != "err-module-vs-definition").collect();
+    let templates: Vec<&'static str> = catalogue::by_class(want_clean, want_warn, want_err);
     let program = if rng.chance(1, 4) {
         // a seeded random program; an injected error (cycle / redefinition / unresolved type) when an error is wanted
         let inject = if want_err { 1 + rng.below(3) as u8 } else { 0 };
